@@ -237,7 +237,7 @@ pub struct ServerCfg {
     pub label: String,
     pub auth: Auth,
     /// replies for pgcat's auth_query: user -> md5 hash ("md5....")
-    pub auth_query: HashMap<String, String>,
+    pub auth_query: Mutex<HashMap<String, String>>,
 }
 
 pub struct MockServer {
@@ -250,6 +250,7 @@ pub struct MockServer {
     own_delay_ms: Arc<AtomicU64>,
     live: Arc<Mutex<HashMap<u64, Arc<Notify>>>>,
     shared: Arc<Shared>,
+    cfg: Arc<ServerCfg>,
     accept_task: tokio::task::JoinHandle<()>,
 }
 
@@ -265,6 +266,7 @@ impl MockServer {
         let label = cfg.label.clone();
         let ip = cfg.ip.clone();
         let cfg = Arc::new(cfg);
+        let cfg_keep = cfg.clone();
         let (f2, s2, l2, sh2) = (fault.clone(), slow_ms.clone(), live.clone(), shared.clone());
         let accept_task = tokio::spawn(async move {
             loop {
@@ -301,7 +303,7 @@ impl MockServer {
                 });
             }
         });
-        Ok(MockServer { idx, label, ip, port, fault, slow_ms, own_delay_ms, live, shared, accept_task })
+        Ok(MockServer { idx, label, ip, port, fault, slow_ms, own_delay_ms, live, shared, cfg: cfg_keep, accept_task })
     }
 
     pub fn set_fault(&self, f: Fault) {
@@ -313,6 +315,10 @@ impl MockServer {
     /// delay the reply to the next pgcat-own query (health check `;`) by this many ms (one shot)
     pub fn slow_next_own(&self, ms: u64) {
         self.own_delay_ms.store(ms, Ordering::SeqCst);
+    }
+    /// what this server answers to pgcat's auth_query for `user` from now on ("md5<hex>")
+    pub fn set_auth_hash(&self, user: &str, hash: &str) {
+        self.cfg.auth_query.lock().unwrap().insert(user.to_string(), hash.to_string());
     }
     pub fn own_delay_handle(&self) -> Arc<AtomicU64> {
         self.own_delay_ms.clone()
@@ -1346,8 +1352,9 @@ impl Session {
         let d = st.directive.clone();
         let total = d.rows.unwrap_or(1);
         // auth_query support: answer pgcat's lookup with the configured hash
-        if st.tag.is_none() && !self.cfg.auth_query.is_empty() && text_has(&st.text, "pg_shadow") {
-            for (u, h) in &self.cfg.auth_query {
+        let aq: Vec<(String, String)> = self.cfg.auth_query.lock().unwrap().iter().map(|(a, b)| (a.clone(), b.clone())).collect();
+        if st.tag.is_none() && !aq.is_empty() && text_has(&st.text, "pg_shadow") {
+            for (u, h) in &aq {
                 if st.text.contains(&format!("'{}'", u)) {
                     out.extend_from_slice(&proto::row_description(&["usename", "passwd"]));
                     out.extend_from_slice(&proto::data_row(&[u.as_bytes(), h.as_bytes()]));
